@@ -517,6 +517,11 @@ where
         // Update merkle tree
         self.tree = tree;
 
+        // Records were collected iterating backwards,
+        // return them in log order so that they can be
+        // re-applied to revert the rewind
+        let mut records = records;
+        records.reverse();
         Ok(records)
     }
 
